@@ -661,7 +661,9 @@ pub fn c19_plugins(cx: &mut Ctx) {
     use sqlparser::parser::Parser;
     let h = cx.h;
     let plan = cx.spec.params.get("c19_plan").cloned().unwrap_or_default();
-    let plugins_on = cx.param_bool("plugins_on");
+    let plugins_on_param = cx.param_bool("plugins_on");
+    let reload_enables = cx.param_bool("reload_enables");
+    let reloaded_seq = crate::world::fired_at("reloaded").map(|(seq, _)| seq);
     for c in h.clients.values() {
         if c.database == "pgcat" || c.auth_result != "ok" {
             continue;
@@ -669,6 +671,14 @@ pub fn c19_plugins(cx: &mut Ctx) {
         for s in &c.steps {
             if s.op != "send" {
                 continue;
+            }
+            // with the plugins switched on by a reload, only what is sent after its acknowledgement counts
+            let plugins_on = if reload_enables { reloaded_seq.map(|q| s.start_seq > q).unwrap_or(false) } else { plugins_on_param };
+            if reload_enables && !plugins_on {
+                continue;
+            }
+            if reload_enables {
+                cx.probe("c19_statement_after_enabling_reload");
             }
             if !matches!(s.outcome, StepOutcome::Ready(_)) {
                 // the pooler closed this client (it does so for a Bind of an unknown statement):
